@@ -850,6 +850,10 @@ func (e *escaper) escapeText(c context, n *parse.TextNode) context {
 // contextAfterText starts in context c, consumes some tokens from the front of
 // s, then returns the context after those tokens and the unprocessed suffix.
 func contextAfterText(c context, s []byte) (context, int) {
+	if c.delim == delimNone && c.state != stateSpecialElementBody {
+		// e.g. inside the start tag of a script element, where `</script>` is not an end tag.
+		return transitionFunc[c.state](c, s)
+	}
 	if c.delim == delimNone {
 		c1, i := tSpecialTagEnd(c, s)
 		if i == 0 {
